@@ -18,7 +18,10 @@ stream closes the response while the stream is suspended at a `yield`).
 * `streamUnlocksOnDone`  — a stream that runs to completion releases the lock (false: `unlock()` only in
                            the `except` branch);
 * `unlockOnError`        — a raising `run_step` inside a request releases the lock;
-* `unlockOnClientGone`   — closing a suspended stream releases the lock.
+* `unlockOnClientGone`   — closing a suspended stream releases the lock;
+* `refusalKeepsLock`     — a request refused by `try_lock()` leaves the lock alone (false: the test-and-set
+                           sits inside the `try … finally: unlock()` block, so the refused request clears a
+                           lock that another request holds).
 -/
 namespace Bptk.C18
 
@@ -28,10 +31,16 @@ structure Cfg where
   streamUnlocksOnDone : Bool
   unlockOnError : Bool
   unlockOnClientGone : Bool
+  refusalKeepsLock : Bool
 deriving DecidableEq, Repr
 
-def Cfg.good (c : Cfg) : Bool :=
-  c.lockIsTestAndSet && c.runStepTakesLock && c.streamUnlocksOnDone && c.unlockOnError && c.unlockOnClientGone
+/-- the facts mutual exclusion (and with it consecutive steps / no time twice / clock = steps) rests on. -/
+def Cfg.mutexOk (c : Cfg) : Bool := c.lockIsTestAndSet && c.runStepTakesLock && c.refusalKeepsLock
+
+/-- the facts the release clause rests on. -/
+def Cfg.releaseOk (c : Cfg) : Bool := c.streamUnlocksOnDone && c.unlockOnError && c.unlockOnClientGone
+
+def Cfg.good (c : Cfg) : Bool := c.mutexOk && c.releaseOk
 
 /-- request kinds; `runSteps n` carries `numberSteps` (any natural number). -/
 inductive Kind where
@@ -110,6 +119,9 @@ def State.init (stop : Nat) (ks : List Kind) : State :=
 
 def refuse (t : Thread) : Thread := { t with pc := .done, st := .refused, susp := false }
 
+/-- refused, but on its way out the request runs the `finally: unlock()` of the block its `try_lock()` sits in. -/
+def refuseRel (t : Thread) : Thread := { t with pc := .release, st := .refused, susp := false }
+
 /-- the request now holds the lock; where it continues. -/
 def acquired (sh : Shared) (t : Thread) (susp : Bool) : Thread :=
   match t.kind with
@@ -130,8 +142,9 @@ def afterStep (c : Cfg) (t : Thread) : Thread :=
 def readLock (sh : Shared) (t : Thread) (next : Pc) (susp : Bool) : Shared × Thread × Lbl :=
   if sh.lock then (sh, refuse t, .RL) else (sh, { t with pc := next, susp := susp }, .RL)
 
-def testAndSet (sh : Shared) (t : Thread) (susp : Bool) : Shared × Thread × Lbl :=
-  if sh.lock then (sh, refuse t, .TAS) else ({ sh with lock := true }, acquired sh t susp, .TAS)
+def testAndSet (c : Cfg) (sh : Shared) (t : Thread) (susp : Bool) : Shared × Thread × Lbl :=
+  if sh.lock then (sh, (if c.refusalKeepsLock then refuse t else refuseRel t), .TAS)
+  else ({ sh with lock := true }, acquired sh t susp, .TAS)
 
 def setLock (sh : Shared) (t : Thread) : Shared × Thread × Lbl :=
   ({ sh with lock := true }, acquired sh t false, .SL)
@@ -142,11 +155,11 @@ def stepGo (c : Cfg) (sh : Shared) (t : Thread) : Shared × Thread × Lbl :=
       match t.kind with
       | .runStep =>
           if c.runStepTakesLock then
-            (if c.lockIsTestAndSet then testAndSet sh t false else readLock sh t .checked false)
+            (if c.lockIsTestAndSet then testAndSet c sh t false else readLock sh t .checked false)
           else readLock sh t .read false
       | .runSteps _ => readLock sh t .checked false
-      | .stream => if c.lockIsTestAndSet then testAndSet sh t true else readLock sh t .genStart true
-  | .checked => if c.lockIsTestAndSet then testAndSet sh t false else setLock sh t
+      | .stream => if c.lockIsTestAndSet then testAndSet c sh t true else readLock sh t .genStart true
+  | .checked => if c.lockIsTestAndSet then testAndSet c sh t false else setLock sh t
   | .genStart => setLock sh t
   | .opening => (sh, { t with pc := .prog, susp := true, first := true }, .Y)
   | .prog =>
@@ -220,5 +233,24 @@ def Pc.active : Pc → Bool
 def Pc.pre : Pc → Bool
   | .start | .checked | .genStart => true
   | _ => false
+
+/-! ### Thread programs as data (per-run obligations of `Gen/C18.lean`)
+
+The harness runs every handler alone against a recording stub of the instance (under `sys.settrace`) and
+records the sequence of shared accesses of that one request; `progOk` says that the model's program for that
+request kind performs exactly that sequence on the corresponding schedule and is finished afterwards. -/
+
+/-- labels of thread `i` in the run of `sched` (without the model-internal `NOOP` / `END`). -/
+def threadLabels (c : Cfg) (stop : Nat) (ks : List Kind) (sched : Schedule) (i : Nat) : List Lbl :=
+  let r := exec c sched (State.init stop ks)
+  ((sched.zip r.2).filter (fun x => x.1.1 == i && x.2 != .NOOP && x.2 != .END)).map (·.2)
+
+def threadDone (c : Cfg) (stop : Nat) (ks : List Kind) (sched : Schedule) (i : Nat) : Bool :=
+  match (run c (State.init stop ks) sched).ths[i]? with
+  | some t => t.pc == .done
+  | none => false
+
+def progOk (c : Cfg) (stop : Nat) (ks : List Kind) (sched : Schedule) (i : Nat) (want : List Lbl) : Bool :=
+  threadLabels c stop ks sched i == want && threadDone c stop ks sched i
 
 end Bptk.C18
